@@ -80,15 +80,20 @@ Proof.
   exact (conj (proj1 getb32_noncanonical_zero) (conj (proj2 getb32_noncanonical_zero)
         (conj (proj1 getb32_fifth_byte_overflow) (proj1 (proj2 getb32_fifth_byte_overflow))))).
 Qed.
-(* the size test of sgetbs: full statement refuted (len = 2^32-1 passes for every buffer size, the C then writes
-   out of bounds), partial statement with exactly that length excluded *)
-Theorem C16_sgetbs_len_wrap_accepts : forall size, sgetbs_len_ok (2^32 - 1) size = true.
+(* the size test of sgetbs (`len >= size` since commit e7500bb): an accepted length always fits the buffer.
+   The test of the reference snapshot (`len + 1 > size` in uint32_t) is kept as sgetbs_len_ok_ref: it let the length
+   2^32-1 through for every buffer size (refuted statement, witness 7f 7f 7f 7f 8f), and is otherwise the same
+   function -- the repair does not change which reference files are readable. *)
+Theorem C16_sgetbs_in_bounds : forall size l, size < 2^32 -> sgetbs_oob size l = false.
+Proof. exact sgetbs_in_bounds. Qed.
+Theorem C16_sgetbs_len_wrap_accepts : forall size, sgetbs_len_ok_ref (2^32 - 1) size = true.
 Proof. exact sgetbs_len_wrap_accepts. Qed.
-Theorem C16_sgetbs_in_bounds_refuted : exists l, forall size, size < 2^32 -> sgetbs_oob size l = true.
-Proof. exact sgetbs_in_bounds_refuted. Qed.
-Theorem C16_sgetbs_in_bounds_partial : forall size l len t, size < 2^32 ->
-  sgetb32 l = Ok (len, t) -> len <> 2^32 - 1 -> sgetbs_oob size l = false.
-Proof. exact sgetbs_in_bounds_partial. Qed.
+Theorem C16_sgetbs_in_bounds_ref_refuted :
+  exists l, forall size, size < 2^32 -> sgetbs_oob_with sgetbs_len_ok_ref size l = true.
+Proof. exact sgetbs_in_bounds_ref_refuted. Qed.
+Theorem C16_sgetbs_len_ok_ref_agree : forall len size, len < 2^32 -> len <> 2^32 - 1 ->
+  sgetbs_len_ok_ref len size = sgetbs_len_ok len size.
+Proof. exact sgetbs_len_ok_ref_agree. Qed.
 Example C16_varint_nonvacuous :
   sputb32 0 = [128] /\ sputb32 127 = [255] /\ sputb32 128 = [0; 129] /\ sputb32 300 = [44; 130] /\
   sputb32 (2^32 - 1) = [127; 127; 127; 127; 143] /\
@@ -121,19 +126,35 @@ Example C16_block_size_nonvacuous :
 Proof. exact block_size_examples. Qed.
 
 Print Assumptions C16_crc_table_ok.
+Print Assumptions C16_crc_table_eq.
 Print Assumptions C16_crc_slice4_eq.
 Print Assumptions C16_crc_hw8_eq.
 Print Assumptions C16_crc32c_gen_eq.
+Print Assumptions C16_crc32c_x86_eq.
+Print Assumptions C16_crc_chunking.
 Print Assumptions C16_stream_crc_chunks.
+Print Assumptions C16_stream_crc_stream.
 Print Assumptions C16_crc_burst32.
+Print Assumptions C16_crc_nonvacuous.
 Print Assumptions C16_getb32_putb32.
 Print Assumptions C16_getb64_putb64.
 Print Assumptions C16_getble32_putble32.
 Print Assumptions C16_getbs_putbs.
+Print Assumptions C16_getb32_eof_strict.
 Print Assumptions C16_getb64_eof_strict.
+Print Assumptions C16_getble32_eof_strict.
 Print Assumptions C16_getbs_eof_strict.
-Print Assumptions C16_sgetbs_in_bounds_refuted.
-Print Assumptions C16_sgetbs_in_bounds_partial.
+Print Assumptions C16_getb32_overlong.
+Print Assumptions C16_sgetb32_range.
+Print Assumptions C16_sgetb64_range.
+Print Assumptions C16_getb32_noncanonical.
+Print Assumptions C16_sgetbs_in_bounds.
+Print Assumptions C16_sgetbs_len_wrap_accepts.
+Print Assumptions C16_sgetbs_in_bounds_ref_refuted.
+Print Assumptions C16_sgetbs_len_ok_ref_agree.
+Print Assumptions C16_varint_nonvacuous.
 Print Assumptions C16_murmur3_vectors.
 Print Assumptions C16_spooky2_vectors.
+Print Assumptions C16_vectors_shape.
 Print Assumptions C16_block_size_rule.
+Print Assumptions C16_block_size_nonvacuous.
